@@ -56,10 +56,10 @@ func c15Cars() map[string]cargen.Shape {
 		return cargen.BlockShape{SlotOffset: off, Blocktime: int64(1_600_000_000 + off), Entries: entries}
 	}
 	m := map[string]cargen.Shape{
-		"no-block":        {Epoch: 1},
-		"1block-0children": {Epoch: 1, Blocks: []cargen.BlockShape{blk(1)}},
-		"2blocks-1-3children": {Epoch: 1, Blocks: []cargen.BlockShape{blk(1, tx(0)), blk(2, tx(2))}},
-		"3blocks-mixed": {Epoch: 1, SubsetEvery: 2, Blocks: []cargen.BlockShape{blk(1, tx(1)), blk(2), blk(5, tx(1), tx(0))}},
+		"no-block":                {Epoch: 1},
+		"1block-0children":        {Epoch: 1, Blocks: []cargen.BlockShape{blk(1)}},
+		"2blocks-1-3children":     {Epoch: 1, Blocks: []cargen.BlockShape{blk(1, tx(0)), blk(2, tx(2))}},
+		"3blocks-mixed":           {Epoch: 1, SubsetEvery: 2, Blocks: []cargen.BlockShape{blk(1, tx(1)), blk(2), blk(5, tx(1), tx(0))}},
 		"5children-over-prealloc": {Epoch: 1, Blocks: []cargen.BlockShape{blk(3, tx(2), tx(1)), blk(4, tx(0))}},
 	}
 	m["4blocks"] = cargen.Shape{Epoch: 1, Blocks: []cargen.BlockShape{blk(1, tx(1)), blk(2, tx(1)), blk(3), blk(4, tx(2))}}
